@@ -42,6 +42,13 @@ def const_fold(n):
     return None
 
 
+# "every match offset within the declared window and within the data produced so far": the built-in match finder's
+# window / offset bookkeeping (C17), reported as C15.matcher
+INCLUDES = [
+    ("c17", "C15.matcher", None, 20),
+]
+
+
 def run(ctx):
     crate = ctx.crate()
     R = "C15.dom.raw-fallback"
@@ -187,7 +194,8 @@ def run(ctx):
 
     def flow_():
         start = len(ctx.obs)
-        c02.run(ctx)
+        with ctx.entering("C02"):
+            c02.run(ctx)
         keep = []
         for o in ctx.obs[start:]:
             if o.rule == "C02.pair.block-loop":
